@@ -151,6 +151,7 @@ def fs_token(fs):
     if t in ('count', 'num', 'init'): return '%s:%d' % (t, fs[1])
     if t == 'open': return 'open:%s,%d,%s' % (o(fs[1]), fs[2], o(fs[3]))
     if t == 'create': return 'create:%s,%s,%d,%s' % (j(fs[1]), o(fs[2]), fs[3], o(fs[4]))
+    if t == 'direrr': return 'direrr:%d:' % fs[1] + ';'.join('%d,%d,%d,%s,%s' % (d[0], d[1], d[2], d[3].hex(), j(d[4])) for d in fs[2])
     if t == 'dirents': return 'dirents:' + ';'.join('%d,%d,%d,%s,%s' % (d[0], d[1], d[2], d[3].hex(), j(d[4])) for d in fs[1])
     if t == 'ioctl': return 'ioctl:%d,%s' % (fs[1], fs[2].hex())
     raise ValueError(t)
@@ -166,6 +167,7 @@ def coq_entry(v):
 def coq_fs(fs):
     t = fs[0]
     if t == 'err': return '(FErr (%s %d))' % ('Os' if fs[1] == 'os' else 'Kind', fs[2])
+    if t == 'direrr': return '(FErr (Os %d))' % fs[1]      # entries handed over, then an error: the answer IS the error
     if t == 'unit': return 'FUnit'
     if t == 'entry': return '(FEntry %s)' % coq_entry(fs[1])
     if t == 'attr': return '(FAttr %s %d %d)' % (coq_stat(fs[1]), fs[1][15], fs[1][16])
@@ -395,6 +397,30 @@ def gen_virtio_seg_cases(rng, start):
                 for x in cs + [n]:
                     segs_.append(x - prev); prev = x
                 add(q, segs_, [16, 8192] if rng.random() < 0.5 else [8208])
+    return cases
+
+def gen_direrr_cases(rng, start, transports=('fusedev', 'virtio')):
+    """Deterministic block: READDIR / READDIRPLUS where the filesystem hands over some entries and THEN fails.
+    What the filesystem returned is the error, so the reply must be the error reply, however many entries were
+    already placed in the buffer (none / one / all fit)."""
+    cases = []
+    k = 0
+    for op in (28, 44):
+        for en in (5, 2, 13, 4095):
+            for sizes in ('none', 'one', 'all'):
+                q = gen_wf(rng, op, 'dirents')
+                ds = q['fs'][1]
+                if not ds: continue
+                plus = 128 if op == 44 else 0
+                first = plus + ((24 + len(ds[0][3]) + 7) // 8) * 8
+                tot = sum(plus + ((24 + len(d[3]) + 7) // 8) * 8 for d in ds)
+                q['fields']['size'] = {'none': max(0, first - 1), 'one': first, 'all': tot + 8}[sizes]
+                h = q['hdr']
+                body = enc_struct('fuse_read_in', q['fields'])
+                q['bytes'] = in_header(40 + len(body), op, h['unique'], h['nodeid'], h['uid'], h['gid'], h['pid']) + body
+                q['fs'] = ('direrr', en, ds)
+                cases.append(make_case(rng, start + len(cases), q['bytes'], q['fs'], q, cap=1 << 17, remap=(0, 0), minor=33,
+                                       transport=transports[k % len(transports)])); k += 1
     return cases
 
 def gen_badname_cases(rng, start, transports=('fusedev', 'virtio')):
